@@ -298,11 +298,13 @@ the error either way, so an erroneous insert is a silent no-op. -/
 
 def floatIsNaN (n : Nat) : Bool := n / 4503599627370496 % 2048 = 2047 ∧ n % 4503599627370496 ≠ 0
 
-/-- Go's `x == y` on float64: NaN differs from everything, `0.0 == -0.0` -/
+/-- `floatCmp(x, y) == 0` (`Float.CompareSameType`): `0.0 == -0.0`; two NaNs compare EQUAL whatever their payload
+bits (`return 0 // both NaN`), a NaN and a number do not -/
 def floatEq (x y : UInt64) : Bool :=
   let a := x.toNat
   let b := y.toNat
-  !floatIsNaN a && !floatIsNaN b && (a = b || (a % 9223372036854775808 = 0 && b % 9223372036854775808 = 0))
+  if floatIsNaN a || floatIsNaN b then floatIsNaN a && floatIsNaN b
+  else a = b || (a % 9223372036854775808 = 0 && b % 9223372036854775808 = 0)
 
 /-- the integer a float is exactly equal to, if it is finite and integral (`x.rational().Cmp(y.rational()) == 0`) -/
 def floatToInt? (x : UInt64) : Option Int :=
